@@ -46,7 +46,7 @@ Theorem C18_tiles_sound : forall files logged, oracle_tiles files logged = true 
   exists arrangement, Permutation (nonempty files) arrangement /\ concat arrangement = logged.
 Proof. intros files logged H. unfold oracle_tiles in H. eapply tiles_sound. exact H. Qed.
 
-Require Import FL.Fs.Fs FL.Flw.Model FL.Flw.Run FL.Flw.ReopenFacts.
+Require Import FL.Fs.Fs FL.Flw.Model FL.Flw.Run FL.Flw.FaultFacts FL.Flw.ReopenFacts.
 (* no rotation, any buffer capacity, ANY history: after an external rename and reopen_output the renamed file holds exactly what was logged
    before (including what was still buffered), the file at the original path exactly what was logged after; nothing else exists *)
 Theorem C18_reopen_switches c t0 off ops1 ops2 moved :
@@ -59,9 +59,10 @@ Theorem C18_reopen_switches c t0 off ops1 ops2 moved :
   /\ werrs (s_w x) = [].
 Proof. exact (reopen_switches c t0 off ops1 ops2 moved). Qed.
 
-(* reset to another log file: the old file holds exactly the records logged before the reset, the new one those after it *)
+(* reset to another log file (same write mode: both synchronous, same buffer capacity - otherwise the reset is rejected):
+   the old file holds exactly the records logged before the reset, the new one those after it *)
 Theorem C18_reset_switches c c2 t0 off ops1 ops2 :
-  norot c -> norot c2 -> logname c2 <> logname c -> Forall wf_op ops1 -> Forall wf_op ops2 ->
+  norot c -> norot c2 -> c_cap c2 = c_cap c -> logname c2 <> logname c -> Forall wf_op ops1 -> Forall wf_op ops2 ->
   let x := fst (run (sys0 t0 off) (OStart c :: ops1 ++ [OReset c2] ++ ops2 ++ [OStop])) in
   dir_is (wfs (s_w x))
          ((if has_write ops1 then [(logname c, written ops1)] else [])
@@ -71,11 +72,24 @@ Proof. exact (reset_switches c c2 t0 off ops1 ops2). Qed.
 
 (* any alternation of writes / flushes with renames+reopen and resets to fresh names: the files, in switch order, tile the logged stream *)
 Theorem C18_switches_tile c t0 off items :
-  norot c -> static_ok items -> NoDup (logname c :: new_names items) -> no_remove items ->
+  norot c -> static_ok c items -> NoDup (logname c :: new_names items) -> no_remove items ->
   let x := fst (run (sys0 t0 off) (OStart c :: flat c items ++ [OStop])) in
   exists files, dir_is (wfs (s_w x)) files /\ NoDup (List.map fst files)
     /\ stream files = written (flat c items) /\ werrs (s_w x) = [].
 Proof. exact (switches_tile_static c t0 off items). Qed.
+
+(* a reset to another write mode (another buffer capacity) is rejected: error result, state unchanged; in a history all
+   records, before and after it, are in the one old file *)
+Theorem C18_reset_other_write_mode_rejected c c2 st w :
+  norot c -> c_cap c2 <> c_cap c ->
+  step (mksys (mkflw c st) w) (OReset c2) = (mksys (mkflw c st) w, ObsRes 1%N false).
+Proof. exact (reset_other_write_mode_rejected c c2 st w). Qed.
+Theorem C18_reset_rejected_keeps_file c c2 t0 off ops1 ops2 :
+  norot c -> c_cap c2 <> c_cap c -> Forall wf_op ops1 -> Forall wf_op ops2 ->
+  let x := fst (run (sys0 t0 off) (OStart c :: ops1 ++ [OReset c2] ++ ops2 ++ [OStop])) in
+  dir_is (wfs (s_w x)) (if has_write (ops1 ++ ops2) then [(logname c, written (ops1 ++ ops2))] else [])
+  /\ werrs (s_w x) = [].
+Proof. exact (reset_rejected_keeps_file c c2 t0 off ops1 ops2). Qed.
 
 Check C18_tiles_sound.
 Print Assumptions C18_tiles_sound.
@@ -85,3 +99,7 @@ Check C18_reset_switches.
 Print Assumptions C18_reset_switches.
 Check C18_switches_tile.
 Print Assumptions C18_switches_tile.
+Check C18_reset_other_write_mode_rejected.
+Print Assumptions C18_reset_other_write_mode_rejected.
+Check C18_reset_rejected_keeps_file.
+Print Assumptions C18_reset_rejected_keeps_file.
